@@ -68,6 +68,7 @@ type Sched struct {
 
 // New returns a scheduler over a choice list.
 func New(choices []int) *Sched {
+	resetPools()
 	return &Sched{byGID: map[int64]*Task{}, Choices: choices, driverGID: gid()}
 }
 
